@@ -814,10 +814,12 @@ def c19(tier, seed, work):
              ("walk", dict(module="MCGenSdr", cfg_tpl="Gen_Cipher.cfg.tpl", family="events", tier=t, seed=seed)),
              ("walk", dict(module="MCGenDcmi", cfg_tpl="Gen_Cipher.cfg.tpl", family="paging", tier=t, seed=seed)),
              ("walk", dict(module="MCGenCipher", cfg_tpl="Gen_Cipher.cfg.tpl", family="selection", tier=t, seed=seed)),
-             ("walk", dict(module="MCGenSensor", cfg_tpl="Gen_Cipher.cfg.tpl", family="misc", tier=t, seed=seed))]
+             ("walk", dict(module="MCGenSensor", cfg_tpl="Gen_Cipher.cfg.tpl", family="misc", tier=t, seed=seed)),
+             # connections opened, used and closed (twice: an explicit Close followed by a deferred one) while others are being created
+             ("hs", dict(family="lifecycle", tier=t, seed=seed, opts={"closeTwice": True}))]
     ns = [8] if tier == "quick" else [2, 4, 8, 16]
     if tier == "quick":
-        specs = [sp for i, sp in enumerate(specs) if i in (0, 1, 3, 4)]
+        specs = [sp for i, sp in enumerate(specs) if i in (0, 1, 3, 4, 6)]
     viols, fams, races, diffs, compared = [], [], 0, 0, 0
 
     def run(kind, kw, name, workers):
